@@ -30,8 +30,11 @@ def option_args(options: Dict[str, Any], fungi: bool) -> List[str]:
         args += ["--hmmdetection-limit-to-rule-names", ",".join(options["limit_rules"])]
     if options["limit_categories"]:
         args += ["--hmmdetection-limit-to-rule-categories", ",".join(options["limit_categories"])]
+    # the threshold is a setting of its own: it is given whether or not the analysis is requested in this run,
+    # otherwise leaving the analysis out would silently change the threshold back to the default
+    args += ["--tta-threshold", str(options["tta_threshold"])]
     if options["tta"]:
-        args += ["--enable-tta", "--tta-threshold", str(options["tta_threshold"])]
+        args += ["--enable-tta"]
     if fungi:
         args += ["--taxon", "fungi", "--hmmdetection-fungal-cutoff-multiplier", str(options["cutoff_mult"]),
                  "--hmmdetection-fungal-neighbourhood-multiplier", str(options["nbh_mult"])]
